@@ -590,10 +590,10 @@ def run_oracles(ctx, n_random, n_curve):
             inp = {'conv': conv, 'pixels': pix, 'shape': shape}
             bad, res = apply_oracle(ctx, 'roundtrip', inp)
             ctx.case('roundtrip/%s/%s' % (conv, 'batch' if len(shape) == 4 else 'single'), (conv, str(pix), tuple(shape)), nontrivial=len(res) >= 3)
+            if len(ctx.samples) < 4 and k == 0:
+                ctx.sample({'oracle': 'roundtrip', 'conv': conv, 'shape': shape, 'first_pixel': pix[0], 'clauses': [[c, ok, str(obs)[:60]] for c, ok, _, obs in res]})
             bad, res = apply_oracle(ctx, 'reference', inp)
             ctx.case('reference/%s' % conv, (conv, 'r', str(pix)))
-            if len(ctx.samples) < 3 and k == 1:
-                ctx.sample({'oracle': 'roundtrip', 'conv': conv, 'shape': shape, 'first_pixel': pix[0], 'clauses': [[c, ok] for c, ok, _, _ in res]})
             i += 1
     apply_oracle(ctx, 'anchors', {'levels': [0.0, 1 / 255, 0.0031308, 0.04045, 0.1, 0.2, 1 / 3, 0.5, 0.7, 0.9, 254 / 255, 1.0] + [rng.random() for _ in range(12)]})
     ctx.case('anchors', ('anchors', 0))
